@@ -22,7 +22,8 @@ Mutating == {"brc20_mine", "brc20_deploy", "brc20_call", "brc20_deposit", "brc20
 IndexerOnlyReads == {"debug_getBlockTraceString", "debug_getBlockTraceHash"}
 Protected == Mutating \cup IndexerOnlyReads
 
-Forms   == {"call", "notification", "batch_first", "batch_mid", "batch_last", "batch_notification"}
+Forms   == {"call", "notification", "batch_first", "batch_mid", "batch_last", "batch_notification",
+            "batch_after_invalid", "batch_before_invalid"}      \* a malformed element (1, {"foo":"bar"}) as neighbour
 Headers == {"none", "wronguser", "wrongpass", "malformed", "correct"}
 AuthSet == {TRUE, FALSE}
 
